@@ -137,6 +137,8 @@ def Span.getSlice (s : Span) (start stop step : Option Int) : R (Option (List Pe
 
 /-! In-place mutations -/
 def Span.reverse (s : Span) : Span := ⟨s.stop, s.start, -s.step⟩
+/-- `Span.direction`: `"forward"` (true) if the step is positive, else `"backward"`. -/
+def Span.direction (s : Span) : Bool := decide (s.step > 0)
 def Span.shiftStart (s : Span) (k : Int) : Span := { s with start := s.start.add k }
 def Span.shiftEnd (s : Span) (k : Int) : Span := { s with stop := s.stop.add k }
 def Span.shift (s : Span) (k : Int) : Span := ⟨s.start.add k, s.stop.add k, s.step⟩
